@@ -21,7 +21,7 @@ LEAN_MODULES = ["NiftyVerif.Core.Proto", "NiftyVerif.Props.C08"]
 DRIVER = "Driver/C08.lean"
 OBLIGATIONS = ["NiftyVerif.C08." + t for t in (
     "rg_volume", "uniform_volume_sum", "rg_dual_distances", "hp_volume", "rg_klen_1d_unique", "lm_l_of_index", "lm_size",
-    "lm_all_l_present", "pindex_partition", "power_dvol_sum", "power_klen_mean", "natural_binning_nonempty",
+    "lm_all_l_present", "pindex_partition", "power_dvol_sum", "power_klen_mean", "natural_binning_nonempty", "linear_binbounds_sorted", "log_binbounds_sorted", "dof_volume_partition",
     "intern_canonical", "pickle_identity", "multidomain_key_order_irrelevant")]
 RULE = ("RGSpace: 1-3 D, shapes 1..9 per axis, distances None / dyadic / non-dyadic, position and harmonic; LMSpace: all "
         "lmax<=6 (quick 5), mmax<=lmax; GLSpace/HPSpace small; DOFSpace; PowerSpace over every harmonic RGSpace/LMSpace with natural, "
@@ -238,6 +238,17 @@ def check_power(ctx, pspec, reqs, posts):
         posts.append(postm)
     else:
         bounds = np.asarray(bb, dtype=np.float64)
+        if pspec.get("how", "").startswith("linear") and len(bounds) >= 2:
+            # np.linspace(first, last, nbin-1) vs the exact linearBounds of the model (class T; ends exact)
+            reqs.append(dict(op="linspace", nbin=len(bounds) + 1, first=fs(bounds[0]), last=fs(bounds[-1])))
+
+            def postl(m, bounds=bounds, pspec=pspec):
+                ctx.case(dict(op="linspace", spec=pspec), len(bounds) > 2)
+                ok = len(m) == len(bounds) and all(close(a, Fraction(b), 1e-13) for a, b in zip(bounds, m)) and \
+                    Fraction(float(bounds[0])) == Fraction(m[0]) and Fraction(float(bounds[-1])) == Fraction(m[-1])
+                if not ok:
+                    ctx.disagree(dict(op="linspace", spec=pspec), bounds.tolist(), m, "C08 linear_binbounds vs exact linspace (class T)")
+            posts.append(postl)
     try:
         ps = ift.PowerSpace(hp, None if bb is None else list(bb))
         impl = dict(pindex=np.asarray(ps.pindex).reshape(-1).tolist(), rho=None, dvol=list(map(float, ps.dvol)),
